@@ -45,7 +45,7 @@ func refHashOK(v interface{}, p *protocol.Protocol) (uint, bool) {
 }
 
 // c10HashVariants returns malformed relatives of a multihash string: trailing bytes after a complete multihash, a declared
-// length one smaller / larger than the digest, a truncated digest, base64 padding.
+// length one smaller / larger than the digest, a truncated digest, base64 padding, the same bytes with non-zero unused bits in the last character.
 func c10HashVariants(v interface{}) []string {
 	s, ok := v.(string)
 	if !ok {
@@ -60,7 +60,19 @@ func c10HashVariants(v interface{}) []string {
 	shorter[1]--
 	longer := append([]byte{}, b...)
 	longer[1]++
-	return []string{enc(append(append([]byte{}, b...), 1, 2, 3, 4, 5, 6)), enc(append(append([]byte{}, b...), 0)), enc(shorter), enc(longer), enc(b[:len(b)-1]), s + "=", enc(append(append([]byte{}, b...), b...))}
+	// the same bytes spelled with non-zero unused bits in the last base64url character (lenient decoders ignore them): another
+	// string, so not "the hash of" anything that is compared as a string
+	var respelled []string
+	if len(b)%3 != 0 {
+		const alphabet = "ABCDEFGHIJKLMNOPQRSTUVWXYZabcdefghijklmnopqrstuvwxyz0123456789-_"
+		if i := strings.IndexByte(alphabet, s[len(s)-1]); i >= 0 {
+			respelled = append(respelled, s[:len(s)-1]+string(alphabet[i|1]))
+			if len(b)%3 == 1 {
+				respelled = append(respelled, s[:len(s)-1]+string(alphabet[i|8]))
+			}
+		}
+	}
+	return append(respelled, enc(append(append([]byte{}, b...), 1, 2, 3, 4, 5, 6)), enc(append(append([]byte{}, b...), 0)), enc(shorter), enc(longer), enc(b[:len(b)-1]), s + "=", enc(append(append([]byte{}, b...), b...)))
 }
 
 func has(list []string, s string) bool {
